@@ -501,7 +501,7 @@ func c03Gen(tp *Tapes) *c03Spec {
 		pool = append(pool, tgt{it, n})
 		sp.Pool = append(sp.Pool, n)
 	}
-	nops := 3 + g.Draw(10)
+	nops := 3 + g.DrawD(10, 30)
 	if g.Draw(8) == 7 {
 		nops = 20 + g.Draw(30) // a long history: wear-out effects (leaked counters, filled tables) need many rejected creations
 	}
